@@ -223,7 +223,7 @@ func trunc(s string, n int) string {
 	return s
 }
 
-// decodeSetup turns the setup record printed by TLC into sources and values.
+// DecodeSetup turns the setup record printed by TLC into sources and values.
 func DecodeSetup(js string) (*Setup, error) {
 	var raw struct {
 		Setup struct {
@@ -315,8 +315,13 @@ type failure struct {
 // runHistory performs the history on inst. exp[i] may be nil. fresh maps
 // Op.Key() to the outcome on a fresh bundle.
 func runHistory(family string, inst *Instance, ops []Op, exp []*Step, fresh map[string]Obs) *failure {
+	// Up to the first failure nothing has changed, so the state before every
+	// step is the initial state: its full digest is kept for the diagnosis, and
+	// each step is checked with the (much cheaper) hash of the same walk.
 	shared := DigestOf(inst.SharedRoots()...)
 	caller := DigestOf(inst.CallerRoots()...)
+	sharedH := FastHash(inst.SharedRoots()...)
+	callerH := FastHash(inst.CallerRoots()...)
 	for i, o := range ops {
 		cp := inst.copyCaller()
 		obs := inst.Do(o)
@@ -325,17 +330,24 @@ func runHistory(family string, inst *Instance, ops []Op, exp []*Step, fresh map[
 			fr = &f
 		}
 		// what changed? shared state first: it explains everything after it
-		shared2 := DigestOf(inst.SharedRoots()...)
-		if d := FirstDiff(shared, shared2); d != nil {
+		if FastHash(inst.SharedRoots()...) != sharedH {
+			d := FirstDiff(shared, DigestOf(inst.SharedRoots()...))
+			if d == nil {
+				d = &Diff{Path: "?", Own: "?"}
+			}
 			return &failure{i, core.Sig{Family: family, Feature: "shared-state-mutated:" + d.Own},
 				fmt.Sprintf("step %d (%s) changed shared state: %s: %s -> %s (%d digest lines differ)", i+1, o.Key(), d.Path, d.Before, d.After, d.Count), obs, fr, d}
 		}
-		callerDiff := FirstDiff(caller, DigestOf(inst.CallerRoots()...))
+		callerChanged := FastHash(inst.CallerRoots()...) != callerH
 		if w := inst.changed(cp); w != "" {
 			return &failure{i, core.Sig{Family: family, Feature: "caller-value-mutated:" + w},
-				fmt.Sprintf("step %d (%s) changed the caller's %s", i+1, o.Key(), w), obs, fr, callerDiff}
+				fmt.Sprintf("step %d (%s) changed the caller's %s", i+1, o.Key(), w), obs, fr, FirstDiff(caller, DigestOf(inst.CallerRoots()...))}
 		}
-		if d := callerDiff; d != nil {
+		if callerChanged {
+			d := FirstDiff(caller, DigestOf(inst.CallerRoots()...))
+			if d == nil {
+				d = &Diff{Path: "?", Own: "?"}
+			}
 			return &failure{i, core.Sig{Family: family, Feature: "caller-value-mutated:" + d.Own},
 				fmt.Sprintf("step %d (%s) changed a caller value: %s: %s -> %s", i+1, o.Key(), d.Path, d.Before, d.After), obs, fr, d}
 		}
@@ -357,13 +369,13 @@ func runHistory(family string, inst *Instance, ops []Op, exp []*Step, fresh map[
 	return nil
 }
 
-// freshOutcomes performs every operation on its own freshly compiled bundle.
+// FreshOutcomes performs every operation on its own freshly compiled bundle.
 func FreshOutcomes(in *Inputs, ops []Op) (map[string]Obs, error) {
 	res, _, err := FreshOutcomesDiff(in, ops, false)
 	return res, err
 }
 
-// freshOutcomesDiff also reports, per operation, what the operation changed in
+// FreshOutcomesDiff also reports, per operation, what the operation changed in
 // the shared state of its fresh bundle (nil = nothing).
 func FreshOutcomesDiff(in *Inputs, ops []Op, withDiff bool) (map[string]Obs, map[string]*Diff, error) {
 	res := map[string]Obs{}
